@@ -428,7 +428,7 @@ func genCase(r *hx.Rand) (g *gen, family string) {
 }
 
 func emit(c *hx.Ctx, script, answers []string) {
-	for i, op := range script {
+	for i, op := range script[:len(answers)] { // a case whose child died is cut after the fatal op
 		c.Op(op, answers[i])
 		ws := strings.Fields(op)
 		kind := ws[0]
